@@ -1,6 +1,6 @@
 import ZChain.Drv.Util
 import ZChain.Model.Round
-/-! Line driver for the round model (C37), code configuration (`Cfg.code`).
+/-! Line driver for the round model (C37), configuration `Cfg.code` (the code as it exists: `Restart` unlocks on its rejected branch).
 `new <number> <cap> <self>` re-initialises; every other line is one `Round` method (see `parseOp`);
 `dump` prints the whole state; `conc <phase0> <prog>;<prog>;… | <schedule>` runs the concurrent phase model
 and prints the phase trace (prog = `S<v>` unlocked SetPhase, `L<v>` setPhase under the mutex, `R<v>` ResetPhase,
